@@ -12,6 +12,7 @@ import (
 	"strings"
 	"sync"
 	"testing"
+	"time"
 
 	redisemu "github.com/jimsnab/go-redisemu"
 	"pgregory.net/rapid"
@@ -295,6 +296,34 @@ func c19Run(c C19Case, st *kit.Stats) error {
 			if !dbEqual(before[db], after[db]) {
 				return fmt.Errorf("restart %d (last change before shutdown: %s): database %d was %s before the clean shutdown and is %s after the restart",
 					i, lastKind, db, dbText(before[db]), dbText(after[db]))
+			}
+		}
+		// the dump reads lists from the head; a restored list must be the same list from the tail, too
+		for db := 0; db < 16; db++ {
+			for k, kd := range after[db].Keys {
+				if kd.Type != "list" {
+					continue
+				}
+				conn.Do("SELECT", strconv.Itoa(db))
+				fwd, err := conn.Do("LRANGE", k, "0", "-1")
+				if err != nil || fwd.K != kit.KArr {
+					return fmt.Errorf("LRANGE %q after restart: %v %v", k, fwd, err)
+				}
+				for i := 1; i <= len(fwd.A) && i <= 5; i++ {
+					v, err := conn.DoT(3*time.Second, "LINDEX", k, strconv.Itoa(-i))
+					if err != nil || v.S != fwd.A[len(fwd.A)-i].S {
+						return fmt.Errorf("restart %d: list %q of database %d reads %s from the head, but LINDEX %d replies %v (%v): the restored list is not the same list from the tail", i, k, db, fwd, -i, v, err)
+					}
+				}
+				if len(fwd.A) >= 3 {
+					// and it still is after elements were taken from the tail and put back
+					conn.Do("RPOPLPUSH", k, k)
+					conn.Do("LMOVE", k, k, "LEFT", "RIGHT")
+					again, _ := conn.Do("LRANGE", k, "0", "-1")
+					if !kit.Equal(again, fwd) {
+						return fmt.Errorf("restart: list %q of database %d was %s; after rotating it one step back and one step forward it is %s", k, db, fwd, again)
+					}
+				}
 			}
 		}
 		conn.Do("SELECT", "0")
